@@ -100,6 +100,8 @@ type FnVC struct {
 	curBlock *ssa.BasicBlock
 	curInstr ssa.Instruction
 	houdini  map[*ssa.BasicBlock][]Clause
+	houdiniByOrd map[int][]Clause
+	inferOnly bool
 	axiomDefs []string
 	usedOfArr bool
 	usedExtQ  bool
